@@ -264,6 +264,26 @@ func runStoreCase(c *h.Ctx, r *h.Report, cs stCase) {
 			if len(k0) != len(k1) {
 				viol("C09:refused-publication-changed-the-history", fmt.Sprintf("a publication that returned %v changed the bucket from %d to %d entries", err, len(k0), len(k1)))
 			}
+			// … and the transport's own idea of "the last update" still describes the bucket: the sequence number a
+			// registration takes as its cut-off (lastSeq) and the id the subscription API reports (lastEventID)
+			{
+				seq, lid := mercure.VerifBoltLastSeq(t), mercure.VerifBoltLastEventID(t)
+				wantSeq, wantID := uint64(0), "earliest"
+				if len(kept) > 0 {
+					wantSeq, wantID = kept[len(kept)-1].seq, kept[len(kept)-1].u.ID
+				} else if seqs, _ := mercure.VerifBoltKeys(t); len(seqs) == 0 {
+					wantSeq = mercure.VerifBoltBucketSequence(t)
+				}
+				if bs := mercure.VerifBoltBucketSequence(t); seq != bs {
+					for _, k := range []string{"C07", "C09"} {
+						viol(k+":sequence-cut-off-runs-ahead-of-the-bucket-after-a-refused-publication", fmt.Sprintf("after a publication refused with %v the transport's lastSeq is %d while the bucket's sequence is %d: the next registration takes a cut-off that includes an update not yet published (it will be replayed AND delivered live)", err, seq, bs))
+					}
+				}
+				if lid != wantID && !(len(kept) == 0 && lid == "earliest") {
+					viol("C18:last-event-id-is-a-refused-update", fmt.Sprintf("after a publication refused with %v the transport reports last event id of %d bytes (%.20q…), the newest stored update is %q", err, len(lid), lid, wantID))
+				}
+				_ = wantSeq
+			}
 			checkWatch(nil, "refused publication")
 			r.Count("op:pubfail")
 			r.Evaluations++
